@@ -1,5 +1,5 @@
 #!/usr/bin/env python3
-"""mk_seed_task.py <ID> [n]  — prepares /tmp/seed_<ID>/ (a scratch worktree of /repo HEAD + PROMPT.md
+"""mk_seed_task.py <ID> [n] [first index]  — prepares /tmp/seed_<ID>/ (a scratch worktree of /repo HEAD + PROMPT.md
 containing ONLY the property text and generic instructions) for an independent sub-agent that
 writes property-breaking changes. Nothing from /verif's machinery goes into the prompt."""
 import json
@@ -9,13 +9,14 @@ import sys
 
 pid = sys.argv[1]
 n = int(sys.argv[2]) if len(sys.argv) > 2 else 2
+start = int(sys.argv[3]) if len(sys.argv) > 3 else 1
 V = os.path.dirname(os.path.dirname(os.path.abspath(__file__)))
 prop = [json.loads(l) for l in open(os.path.join(V, "properties.jsonl")) if json.loads(l)["id"] == pid][0]
 d = "/tmp/seed_%s" % pid
 os.makedirs(d, exist_ok=True)
 if not os.path.exists(d + "/wt"):
     subprocess.run(["git", "-C", "/repo", "worktree", "add", "-q", "--detach", d + "/wt", "HEAD"], check=True)
-dirs = " and ".join("`%s/m%d/`" % (d, i + 1) for i in range(n))
+dirs = " and ".join("`%s/m%d/`" % (d, i + start) for i in range(n))
 prompt = f"""You are helping to evaluate a verification tool by writing realistic *bugs* for it to find. You work ONLY in the scratch git worktree `{d}/wt` (a checkout of the C++ library TorstenRobitzki/bluetoe: header-only BLE GATT server with its own ATT protocol handler, link layer over a scheduled-radio abstraction, security manager and nRF51/52 bindings) and in `{d}/`. Do not look at or touch `/verif` or `/repo`.
 
 The property:
